@@ -5,6 +5,6 @@ INIT Init
 NEXT Next
 VIEW View
 ACTION_CONSTRAINT DumpStep
-INVARIANTS Injective OnlyOwnNamespace
+INVARIANTS Injective OnlyOwnNamespace ProcessedResolves
 PROPERTIES Deterministic
 CHECK_DEADLOCK FALSE
